@@ -1,7 +1,7 @@
 SPECIFICATION Spec
 CONSTANT N = 3
 CONSTANT Mode = "both"
-CONSTANT TtyMode = "both"
+CONSTANT TtyMode = "parent-only"
 INVARIANT OwnGroup
 INVARIANT TerminalGiven
 INVARIANT RunsOwningTerminal
